@@ -27,7 +27,7 @@ EXHAUSTIVE = {"quick": "all arguments of each operation for every generated trac
 CASE_LIMIT_S = 60.0
 
 OPS = ["sort", "insert", "insert_chain", "extract", "span", "add", "mod_int", "mod_pattern", "gt", "lt",
-       "remove_list", "remove_one", "pop", "history", "history"]
+       "remove_list", "remove_one", "pop", "history", "history", "slice", "sort_radix", "remove_ends", "derived_edit"]
 
 BASES = [gen.ms_from_fields(2021, 6, 15, 12, 0, 0, 0),
          gen.ms_from_fields(2019, 12, 31, 23, 59, 58, 0),     # year end
@@ -109,7 +109,7 @@ def patterns(n, rng, nrand):
         dup = sorted(rng.choice(range(0, max(1, n // 2) * 1000 + 1, 1000)) for _ in range(n))
         out.append(("duplicates", dup))
         for _ in range(nrand):
-            kind = rng.choice(["shuffled", "duplicates", "dup_shuffled", "ms_steps"])
+            kind = rng.choice(["shuffled", "duplicates", "dup_shuffled", "ms_steps", "ms_shuffled", "fields_shuffled"])
             if kind == "shuffled":
                 v = inc[:]
                 rng.shuffle(v)
@@ -117,6 +117,14 @@ def patterns(n, rng, nrand):
                 v = sorted(rng.randrange(0, n) * 1000 for _ in range(n))
             elif kind == "dup_shuffled":
                 v = [rng.randrange(0, n) * 1000 for _ in range(n)]
+            elif kind == "ms_shuffled":
+                v = [rng.randrange(0, 3000) for _ in range(n)]
+                kind = "shuffled"
+            elif kind == "fields_shuffled":
+                # instants that differ in one calendar field at a time (ms, s, min, h, day, month, year), in any order
+                units = [1, 1000, 60000, 3600000, 86400000, 31 * 86400000, 366 * 86400000]
+                v = [sum(rng.choice(units) * rng.randrange(0, 3) for _ in range(rng.randrange(1, 4))) for _ in range(n)]
+                kind = "shuffled"
             else:
                 v = sorted(rng.randrange(0, 3000) for _ in range(n))
             out.append((kind if kind != "ms_steps" else "duplicates" if len(set(v)) < n else "increasing", v))
@@ -464,6 +472,140 @@ def run_case(case, ctx):
                 break
         if n == 0:
             return ood("no index to remove on an empty track", cls)
+    elif op == "slice":
+        # index extraction through item access: track[a:b] and track[a:b:c] follow Python's slice semantics
+        tr = T()
+        snap = snapshot(tr)
+        if n == 0:
+            return ood("slice of an empty track carries no feature table", cls)
+        bounds = [None] + list(range(-n - 1, n + 2))
+        for a in bounds:
+            for b in bounds:
+                for c in ((None,) if n > 6 else (None, 2, 3, -1)):
+                    sl = slice(a, b, c)
+                    exp = list(range(n))[sl]
+                    if not exp:
+                        ctx.count("slice_empty_result")
+                        continue       # an empty result carries no feature table (tracklib refuses features on empty tracks)
+                    res = M.call(lambda: tr[sl])
+                    if not J.check_result(res, exp, tid, {"slice": [a, b, c]}):
+                        break
+                    if not J.check_source(tr, snap, {"slice": [a, b, c]}):
+                        break
+                if J.problem:
+                    break
+            if J.problem:
+                break
+
+    elif op == "sort_radix":
+        # the second time sort of the API (documented for years 1970..2069)
+        tr = T()
+        r = M.call(tr.sortRadix)
+        ctx.monitor("model.ids")
+        if M.is_raised(r):
+            J.fail("sortRadix raised", raised=r)
+        else:
+            obs = tr.getObsList()
+            got = [int(o.features[0]) for o in obs]
+            ms = [times[i] for i in got]
+            if sorted(got) != list(range(n)):
+                J.fail("sortRadix lost or duplicated observations", got_ids=got)
+            elif any(ms[i] > ms[i + 1] for i in range(n - 1)):
+                J.fail("sortRadix result is not in non-decreasing time order", got_ids=got, got_times=ms)
+            elif any(obs_tuple(o) != expected_tuple(i, times[i]) for o, i in zip(obs, got)):
+                J.fail("sortRadix changed an observation", got_ids=got)
+            elif list(tr.getListAnalyticalFeatures()) != (["id", "w"] if n else []):
+                J.fail("sortRadix changed the feature table")
+            J.outcomes.add(tuple(got))
+            J.outcomes.add(tuple(range(n)))
+
+    elif op == "remove_ends":
+        if n == 0:
+            return ood("no observation to remove on an empty track", cls)
+        # removeFirstObs / removeLastObs chains: every word over {F, L} up to the track's size
+        for L in range(1, min(n, 4) + 1):
+            for word in itertools.product("FL", repeat=L):
+                tr = T()
+                lo_, hi_ = 0, n
+                r = None
+                for w in word:
+                    r = M.call(tr.removeFirstObs if w == "F" else tr.removeLastObs)
+                    if M.is_raised(r):
+                        break
+                    if w == "F":
+                        lo_ += 1
+                    else:
+                        hi_ -= 1
+                if M.is_raised(r):
+                    J.fail("removeFirstObs/removeLastObs raised", args={"word": "".join(word)}, raised=r)
+                    break
+                if not J.check_result(tr, list(range(lo_, hi_)), tid, {"word": "".join(word)},
+                                      features=("id", "w")):
+                    break
+            if J.problem:
+                break
+
+    elif op == "derived_edit":
+        # history across two tracks: a derived track is given a further feature; the source must still list and
+        # return exactly its own feature table (a derived track must not share the table object with its source)
+        if n == 0:
+            return ood("an empty track carries no feature table", cls)
+        kinds = ["extract", "span", "add", "mod", "pattern", "gt", "lt", "slice"]
+        for kd in kinds:
+            tr = T()
+            other = build([BASES[2] + 777 * k for k in range(2)], start_id=n)
+            if kd == "extract":
+                res = M.call(tr.extract, 0, n - 1 - (1 if n > 1 else 0))
+            elif kd == "span":
+                res = M.call(tr.extractSpanTime, gen.obstime_from_ms(min(times)), gen.obstime_from_ms(max(times)))
+            elif kd == "add":
+                res = M.call(lambda: tr + other)
+            elif kd == "mod":
+                res = M.call(lambda: tr % 2)
+            elif kd == "pattern":
+                res = M.call(lambda: tr % [True, False, True])
+            elif kd == "gt":
+                res = M.call(lambda: tr > (1 if n > 1 else 0))
+            elif kd == "lt":
+                res = M.call(lambda: tr < (1 if n > 1 else 0))
+            else:
+                res = M.call(lambda: tr[0:n])
+            ctx.monitor("model.ids")
+            if M.is_raised(res):
+                J.fail("operation raised", args={"derive": kd}, raised=res)
+                break
+            r2 = M.call(res.createAnalyticalFeature, "extra", 5.0)
+            if M.is_raised(r2):
+                J.fail("creating a feature on a derived track raised", args={"derive": kd}, raised=r2)
+                break
+            ctx.monitor("source.unchanged")
+            lst = M.call(tr.getListAnalyticalFeatures)
+            if M.is_raised(lst) or list(lst) != ["id", "w"]:
+                J.fail("source track was modified: a feature created on the derived track is listed by the source",
+                       args={"derive": kd}, got=lst, expected=["id", "w"])
+                break
+            ok = True
+            for name, expv in (("id", [float(i) for i in range(n)]), ("w", [1000.0 + 7 * i for i in range(n)])):
+                col = M.call(tr.getAnalyticalFeature, name)
+                if M.is_raised(col) or [float(v) for v in col] != expv:
+                    ok = J.fail("source track was modified: its features no longer read back after a feature was "
+                                "created on a derived track", args={"derive": kd, "feature": name}, got=col)
+                    break
+            if not ok:
+                break
+            again = M.call(lambda: tr % 1)
+            if M.is_raised(again) or list(again.getListAnalyticalFeatures()) != ["id", "w"] or \
+                    [int(o.features[0]) for o in again.getObsList()] != list(range(n)):
+                J.fail("a selection on the source after a derived track was edited does not carry the source's table",
+                       args={"derive": kd}, got=again if M.is_raised(again) else list(again.getListAnalyticalFeatures()))
+                break
+            if kd == "add":
+                lst2 = M.call(other.getListAnalyticalFeatures)
+                if M.is_raised(lst2) or list(lst2) != ["id", "w"]:
+                    J.fail("right operand of + was modified by a feature created on the sum", got=lst2)
+                    break
+            J.outcomes.add(kd)
+
     elif op == "history":
         # call histories: list mutations of every kind interleaved with sort() and chronological insertion
         tr = T()
@@ -565,6 +707,50 @@ def run_case(case, ctx):
                        got_times=ms_now, expected_times=[m for _, m in model])
                 break
             J.outcomes.add(tuple(ms_now))
+        # after the history: the selecting operations must designate observations of the track as it is NOW
+        if not J.problem and model:
+            m = len(model)
+            ids_now = [k for k, _ in model]
+            snap = snapshot(tr)
+
+            def ids_of(res):
+                return [int(round(o.position.getX() - 100.0)) for o in res.getObsList()]
+            for _ in range(6):
+                kd = rng.choice(["extract", "span", "mod", "gt", "lt", "slice"])
+                if kd == "extract":
+                    i = rng.randrange(m)
+                    j = rng.randrange(i, m)
+                    res, exp, args = M.call(tr.extract, i, j), ids_now[i:j + 1], {"extract": [i, j]}
+                elif kd == "span":
+                    a, b = rng.choice(model)[1], rng.choice(model)[1]
+                    lo2, hi2 = min(a, b), max(a, b)
+                    res = M.call(tr.extractSpanTime, gen.obstime_from_ms(a), gen.obstime_from_ms(b))
+                    exp, args = [k for k, t in model if lo2 <= t <= hi2], {"span": [a, b]}
+                elif kd == "mod":
+                    k = rng.randrange(1, m + 2)
+                    res, exp, args = M.call(lambda: tr % k), ids_now[::k], {"mod": k}
+                elif kd == "gt":
+                    k = rng.randrange(0, m + 2)
+                    res, exp, args = M.call(lambda: tr > k), ids_now[k:], {"gt": k}
+                elif kd == "lt":
+                    k = rng.randrange(0, m + 2)
+                    res, exp, args = M.call(lambda: tr < k), ids_now[:max(m - k, 0)], {"lt": k}
+                else:
+                    a, b = rng.randrange(-m, m + 1), rng.randrange(-m, m + 1)
+                    res, exp, args = M.call(lambda: tr[a:b]), ids_now[a:b], {"slice": [a, b]}
+                ctx.monitor("model.ids")
+                args["steps"] = steps
+                if M.is_raised(res):
+                    J.fail("selection after a call history raised", args=args, raised=res)
+                    break
+                got = M.call(ids_of, res)
+                if M.is_raised(got) or got != exp:
+                    J.fail("selection after a call history designates the wrong observations", args=args,
+                           got_ids=got, expected_ids=exp)
+                    break
+                if snapshot(tr) != snap:
+                    J.fail("selection after a call history modified the source track", args=args)
+                    break
         sig = (op, rank, tuple(steps))
     else:
         raise M.HarnessError("unknown op " + op)
